@@ -45,9 +45,55 @@ theorem request_info_messages (mw : S_ratelimitmw_Middleware) (old : S_agd_Reque
   intro ri tr h
   cases e <;> simp [newRequestInfo] at h <;> obtain ⟨h1, _⟩ := h <;> subst h1 <;> rfl
 
+/-! ## Round 3: the pooled `filter.Request` / `filter.Response`, and what the ECS cache keeps -/
+
+/-- `filter.Request` out of its pool: whatever object `Get` returned, ALL seven fields are written, once
+each, from this request's message and request info; the client name is the name of this request's
+device, or empty when there is none (not what the previous user left). -/
+theorem flt_request_filled (mw : S_mainmw_Middleware) (ri : Option S_agd_RequestInfo) (old : AbsPtr)
+    (p : Option S_agd_Profile) (d : Option S_agd_Device) :
+    reqInfoToFltReq mw ri old (p, d) =
+      some (old, [("Get", []), ("set fltReq.DNS", ["req"]), ("set fltReq.Messages", ["ri.Messages"]),
+        ("set fltReq.RemoteIP", ["ri.RemoteIP"]), ("DeviceData", []),
+        ("set fltReq.ClientName", [(d.map (·.Name)).getD ""]), ("set fltReq.Host", ["ri.Host"]),
+        ("set fltReq.QType", ["ri.QType"]), ("set fltReq.QClass", ["ri.QClass"])]) := by
+  cases d <;> simp [reqInfoToFltReq]
+
+/-- `filter.Response` out of its pool: all three fields are written, once each. -/
+theorem flt_response_filled (mw : S_mainmw_Middleware) (ri : Option S_agd_RequestInfo) (old : AbsPtr)
+    (p : Option S_agd_Profile) (d : Option S_agd_Device) :
+    reqInfoToFltResp mw ri old (p, d) =
+      some (old, [("Get", []), ("set fltResp.DNS", ["resp"]), ("set fltResp.RemoteIP", ["ri.RemoteIP"]),
+        ("DeviceData", []), ("set fltResp.ClientName", [(d.map (·.Name)).getD ""])]) := by
+  cases d <;> simp [reqInfoToFltResp]
+
+/-- Going back to the pool, the message reference is dropped first, then the object is put, once. -/
+theorem flt_put_drops_message (mw : S_mainmw_Middleware) :
+    putFltReq mw = [("set req.DNS", ["nil"]), ("Put", ["_"])] ∧
+    putFltResp mw = [("set resp.DNS", ["nil"]), ("Put", ["_"])] := by
+  simp [putFltReq, putFltResp]
+
+/-- `ecscache.Middleware.set`: in every run, either nothing is stored, or the last three calls are the
+key computation, `Clone`, and the store — what goes into the cache is made by `Clone` right before it is
+stored (the response itself goes on to the client and is released after it was written). -/
+theorem ecs_set_stores_clone (mw : S_ecscache_Middleware) (cr : Option S_ecscache_cacheRequest) (dep : Bool)
+    (ttl : Int) (cacheable : Bool) (c1 c2 : AbsPtr) (rcode key : Int) (cl : AbsPtr) :
+    let tr := names (ecsSet mw cr dep ttl cacheable c1 c2 rcode key cl)
+    tr = ["FindLowestTTL", "isCacheable"] ∨
+      (tr.drop (tr.length - 3) = ["toCacheKey", "Clone", "SetWithExpire"] ∧ tr.count "SetWithExpire" = 1) := by
+  simp only [ecsSet, names]
+  by_cases h1 : (decide (ttl = (0 : Int)) || !cacheable) = true
+  · simp [h1]
+  · by_cases h2 : dep = true <;> by_cases h3 : (mw.overrideTTL && !decide (rcode = (2 : Int))) = true <;>
+      simp [h1, h2, h3]
+
 end Agd.Tie.TrC07
 
 #print axioms Agd.Tie.TrC07.translation_complete
 #print axioms Agd.Tie.TrC07.filtering_context_reset
 #print axioms Agd.Tie.TrC07.request_info_reset
 #print axioms Agd.Tie.TrC07.request_info_messages
+#print axioms Agd.Tie.TrC07.flt_request_filled
+#print axioms Agd.Tie.TrC07.flt_response_filled
+#print axioms Agd.Tie.TrC07.flt_put_drops_message
+#print axioms Agd.Tie.TrC07.ecs_set_stores_clone
